@@ -158,6 +158,7 @@ pub struct Stats {
 }
 
 pub fn run(args: &Args) -> i32 {
+    let stale_every = args.num("stale-every", 5).max(1) as usize;
     let out = args.req("out");
     let mut w = NdWriter::create(out);
     let mut stats = Stats::default();
@@ -182,7 +183,7 @@ pub fn run(args: &Args) -> i32 {
             let flow = render_flow(&nodes[0], &nm);
             let block = render_block(&nodes[0], &nm);
             for (tag, text) in [("f", &flow), ("b", &block)] {
-                if i % 5 == 0 && (has_alias || c.doc.iter().any(|e| e.a != 0)) {
+                if i % stale_every == 0 && (has_alias || c.doc.iter().any(|e| e.a != 0)) {
                     emit_stale(&mut w, format!("c{i}-{tag}-stale"), text, &names, &mut stats);
                 }
                 if emit(&mut w, format!("c{i}-{tag}"), text, &c.doc, &mut stats) {
